@@ -1,4 +1,5 @@
 """C06 — instantiation builds the specified initial state, once, per instance."""
+from . import c05  # noqa: F401  (registers the c05_bigmem maker)
 from .. import f1, gen, e2e, wasm, pools
 from ..wasm import I32, I64, F32, F64, Module, Func
 
@@ -308,10 +309,13 @@ def make_inst(ch, params):
 def plan(tier, seed):
     if tier == 'quick':
         ccs = ['gcc-O0', 'clang-O2', 'gcc-O2', 'clang-O0', 'clang-O1-san']
-        return [{'maker': 'c06_inst', 'ncases': 40, 'ccs': ccs, 'shrink_budget': 25, 'reduce_budget': 30} for _ in range(32)]
+        # plus: instantiation of a module whose memory is larger than 2 GiB with active segments at offsets >= 2^31 (c05_bigmem)
+        return [{'maker': 'c06_inst', 'ncases': 40, 'ccs': ccs, 'shrink_budget': 25, 'reduce_budget': 30} for _ in range(32)] + \
+            [{'maker': 'c05_bigmem', 'ncases': 2, 'ccs': ['gcc-O0', 'clang-O2', 'gcc-O2-gnu89'], 'shrink_budget': 4, 'reduce_budget': 4} for _ in range(2)]
     ccs = ['gcc-O0', 'clang-O2', 'gcc-O2', 'clang-O0', 'gcc-O3', 'clang-O3', 'gcc-O0-gnu89', 'clang-O2-gnu89', 'clang-O1-san',
            'gcc-O1-san']
-    return [{'maker': 'c06_inst', 'ncases': 400, 'ccs': ccs, 'shrink_budget': 40, 'reduce_budget': 40} for _ in range(64)]
+    return [{'maker': 'c06_inst', 'ncases': 400, 'ccs': ccs, 'shrink_budget': 40, 'reduce_budget': 40} for _ in range(64)] + \
+        [{'maker': 'c05_bigmem', 'ncases': 10, 'ccs': ['gcc-O0', 'clang-O2', 'gcc-O2-gnu89', 'clang-O0'], 'shrink_budget': 4, 'reduce_budget': 4} for _ in range(4)]
 
 
 def replay(rp):
